@@ -266,6 +266,65 @@ def self_closing_acknowledged(ctx):
                       {"mode": mode, "name": nm})
 
 
+def character_reference_errors(ctx):
+    """R16.10: "conforming documents record no errors", for text after `&`.  The standard's tokenizer reports (a) a named
+    reference that is decoded although its `;` is missing, (b) `&name;` whose name is unknown -- and nothing else: `AT&T`,
+    `a &b c`, `href="x?y&z"` and the historical attribute case `href="?a=1&copy=2"` (left as text) are not errors and are
+    conforming.  HTMLTokenizer.consumeEntity is run from its source (sa/classeval.py, entity trie modelled over
+    constants.entities) and the presence of a ParseError token is compared per input."""
+    from ..classeval import ClassEval, Record
+    r, ce = ctx.r, ctx.ce
+    r.rule("R16.10", "after `&`, a parse error is recorded exactly where the standard's tokenizer reports one", floor=10)
+    REL_T = "_tokenizer.py"
+    g = ctx.repo.func(REL_T, "HTMLTokenizer.consumeEntity")
+    cls_ = ctx.repo.cls(REL_T, "HTMLTokenizer")
+    ents = ce.const("constants.py", "entities")
+    tt = ce.const("constants.py", "tokenTypes")
+    prefixes = set()
+    for k in ents:
+        for i in range(1, len(k) + 1):
+            prefixes.add(k[:i])
+
+    def longest(p):
+        for i in range(len(p), 0, -1):
+            if p[:i] in ents:
+                return p[:i]
+        raise KeyError(p)
+    trie = Record(has_keys_with_prefix=lambda p: p in prefixes, longest_prefix=longest)
+    cases = [("T", False), ("b c", False), ("z\"", True), ("b; c", False), ("copy=2", True), ("copy 2", False), ("copy;", False), ("amp;", False),
+             ("noti", True), ("not x", True), ("zzzz;", False), (" x", False), ("", False), ("lt", False), ("quot;", True), ("x1y2;", True)]
+    for text, from_attr in cases:
+        key = "entity-error[&%s,%s]" % (text, "attribute" if from_attr else "text")
+        evl = ClassEval(ce, g.module, cls_, {"currentToken": {"type": tt["StartTag"], "name": "a", "data": [["href", ""]]}}, repo=ctx.repo,
+                        globals_override={"entitiesTrie": trie})
+        evl.stream = list(text)
+        try:
+            evl.call("consumeEntity", [], {"allowedChar": '"' if from_attr else None, "fromAttribute": from_attr})
+        except AnalysisError as e:
+            r.idiom("R16.10", False, key, g.where, "consumeEntity is not evaluable on `&%s` (%s)" % (text, str(e)[:80]))
+            continue
+        got = [t.get("data") for t in evl.emitted if isinstance(t, dict) and t.get("type") == tt["ParseError"]]
+        # the standard
+        m = next((text[:i] for i in range(len(text), 0, -1) if text[:i] in ents), None)
+        if text == "" or text[0] in "\t\n\x0c\r <&" or (from_attr and text[0] == '"'):
+            exp = False
+        elif m is not None:
+            nxt = text[len(m):len(m) + 1]
+            historical = not m.endswith(";") and from_attr and nxt != "" and (nxt == "=" or (nxt.isascii() and nxt.isalnum()))
+            exp = (not m.endswith(";")) and not historical
+        else:
+            k = 0
+            while k < len(text) and text[k].isascii() and text[k].isalnum():
+                k += 1
+            exp = k > 0 and text[k:k + 1] == ";"
+        r.check("R16.10", bool(got) == exp, key, g.where,
+                "after `&%s` in %s html5lib records %s; the standard's tokenizer reports %s: %s" % (
+                    text, "an attribute value" if from_attr else "text", got or "no error", "an error" if exp else "none",
+                    "the input is conforming (an ampersand that starts no reference and is not followed by `name;` is plain text), yet the "
+                    "document has an error and strict mode raises" if got and not exp else "an error is lost"),
+                {"input": "&" + text, "attribute": from_attr}, detail={"input": "&" + text, "errors": got})
+
+
 def ce_code(ctx, call, mod):
     if not call.args:
         return "XXX-undefined-error (no code given)"
@@ -290,6 +349,7 @@ def run(ctx):
     r.rule("R16.3", "no except clause on the parse path can swallow ParseError around a call reaching parseError", floor=1)
     unconditional_errors(ctx)
     self_closing_acknowledged(ctx)
+    character_reference_errors(ctx)
 
     # strict <=> non-strict across an encoding restart: the restart (except _ReparseException: reset(); mainLoop()) forgets
     # the errors of the abandoned pass; strict mode must then not have raised for them (or the restart must keep them)
